@@ -462,3 +462,7 @@ def run(prog, rep):
         prog._adt_by_name = lambda: prog._adt_names
     rule_subset(prog, rep)
     rule_guard(prog, rep)
+    # the schema-less build must not drop parts of the document (a dropped `@include(if: $v)` turns
+    # a used variable into an unused one): the lowering rule of C19, shared
+    from .C19 import rule_fromast
+    rule_fromast(prog, rep)
